@@ -190,7 +190,7 @@ def cppDecWith (car : Nat → Nat) : Ty → Bits → Option (Val × Bits)
     | none => none
     | some (n, r) => match decChars n r with
       | none => none
-      | some (cs, r') => if cs.all (· < 128) then some (.str cs, r') else none
+      | some (cs, r') => if utf8Valid cs then some (.str cs, r') else none
   | .arr t n, bs => decList (cppDecWith car t) n bs
   | .dyn t, bs => match readN 32 bs with
     | none => none
@@ -217,7 +217,7 @@ theorem pushBits_nonneg (i : Int) (n : Nat) (h0 : 0 ≤ i) (h1 : i < 2 ^ n) :
 theorem pushBits_nat (x n : Nat) (h : x < 2 ^ n) : pushBits (x : Int) n = natBits n x := by
   rw [pushBits_nonneg _ _ (by omega) (by exact_mod_cast h)]; simp
 
-theorem cppChars_eq (cs : List Nat) (h : cs.all (· < 128) = true) :
+theorem cppChars_eq (cs : List Nat) (h : cs.all (· < 256) = true) :
     (cs.map fun (c : Nat) => pushBits (c : Int) 8).flatten = encChars cs := by
   unfold encChars
   induction cs with
@@ -260,7 +260,7 @@ theorem cppEnc_eq (t : Ty) : ∀ (v : Val), wf t v = true → cppEnc t v = enc t
     intro v h; cases v <;> simp_all [wf]
     rename_i cs
     simp only [cppEnc, enc]
-    rw [pushBits_nat _ 32 h.1, cppChars_eq cs (by simpa using h.2)]
+    rw [pushBits_nat _ 32 h.1, cppChars_eq cs (utf8Valid_bytes cs h.2)]
   | unit => intro v h; cases v <;> simp_all [wf, cppEnc, enc]
   | arr t n ih =>
     intro v h
